@@ -12,7 +12,7 @@ Kernels covered deductively here:
   power_spectrum factorial, n_choose_k, P_n, bin_kmu, bin_kppi (C08), linear_interp, expand_poles_to_3d, get_smoothing,
   get_delta_mu2, shift_field_fft, normalize_field (in-place), _normalize | GRAND_HOD.fast_concatenate, wrap (C09),
   abacus_hod._searchsorted_parallel (C12) | menv.msum_core.
-NOT under a deductive contract (bounded replay only, see C09/C10): GRAND_HOD.gen_cent, gen_sats.
+GRAND_HOD.gen_cent / gen_sats: bounds and prange obligations of the functional contracts in contracts/hodk.py (box observer; the light-cone branch: bounded replay only, see C09/C10).
 Not covered at all: getPointsOnSphere, compute_fast_NFW, gen_sats_nfw, _compute_ngal_*, tpcf_corrfunc, shear, zcv/*, prepare_sim.
 """
 import itertools
@@ -207,10 +207,7 @@ def check(run):
     for s in new_specs() + aggregated(run.tier):
         run.prove(s, replayer)
     from contracts import hodk
-    for rsd in ((True,) if run.tier == 'quick' else (True, False)):
-        sp = hodk.spec_gen_cent((True, True, True), rsd, run.repo)
-        sp.prop = 'C11'
-        run.prove(sp)
+    hodk.prove_kernels(run, 'C11', run.tier, lemmas=False)
     run.discharge()
     # bounded: the new kernels on boundary inputs with bounds checking
     ok, detail = replayer(None, None)
@@ -219,12 +216,12 @@ def check(run):
     run.add_bounded('boundary inputs through the bounds-checked / interpreted kernels', 12, 12,
                     'linear_interp at/below/above the abscissa range, msum_core, _wrap_inplace, _zeros_parallel (others: see the bounded parts of C04, C06, C08, C15, C17, C19)',
                     [dict(kernel='linear_interp', xd=3.0, x=[0, 1, 2, 3])])
-    run.notes.append('gen_cent (box observer) is under the functional contract of contracts/hodk.py, whose bounds / prange obligations are discharged here; gen_sats and the light-cone branch: bounded replay of C09/C10 only')
+    run.notes.append('gen_cent / gen_sats (box observer) are under the functional contracts of contracts/hodk.py, whose bounds / prange obligations are discharged here; the light-cone branch: bounded replay of C09/C10 only')
     run.assumptions += ['documented preconditions as transcribed in each contract (positions in [0, BoxSize], uniform interpolation grid, well-formed catalogue offsets, '
                         'neighbour indices inside the mass table, leading pack9 header, poles <= 10)',
                         'complex values abstracted to uninterpreted reals; transcendental functions uninterpreted; reshape(-1) modelled as a 1-D array of prod(shape) elements',
                         'functional invariants that the bounds proofs rely on (e.g. the counting argument of partition_parallel) are re-proved here from the same sidecars',
-                        'NOT covered: gen_sats, gen_cent with a light-cone origin (bounded only), getPointsOnSphere, compute_fast_NFW, gen_sats_nfw, _compute_ngal_*, tpcf_corrfunc, shear, zcv/*, prepare_sim']
+                        'NOT covered: gen_cent / gen_sats with a light-cone origin (bounded only), getPointsOnSphere, compute_fast_NFW, gen_sats_nfw, _compute_ngal_*, tpcf_corrfunc, shear, zcv/*, prepare_sim']
 
 
 def replay_file(rec, repo):
